@@ -105,6 +105,7 @@ let parse_change () = match next () with
   | "AT" -> CAddTable (parse_stable ())
   | "MT" -> CModifyTable (parse_stable ())
   | "DT" -> CDropTable (parse_stable ())
+  | "RT" -> let a = next_opt () in let b = next_opt () in CRenameTable (a, b)
   | "OT" -> let k = next_int () in COther (times k next_bytes)
   | s -> failwith ("change " ^ s)
 
@@ -175,7 +176,7 @@ let parse_change_s () = match next () with
   | "AO" -> let ns = next_opt () in let n = next_bytes () in AddObject (ns, n)
   | "DO" -> let ns = next_opt () in let n = next_bytes () in DropObject (ns, n)
   | "MO" -> let ns = next_opt () in let n = next_bytes () in let k = next_int () in ModifyObject (ns, n, nat_of_int k)
-  | "RO" -> let a = next_bytes () in let b = next_bytes () in RenameObject (a, b)
+  | "RO" -> let nsf = next_opt () in let a = next_bytes () in let nst = next_opt () in let b = next_bytes () in RenameObject (nsf, a, nst, b)
   | s -> failwith ("change " ^ s)
 
 let do_skel id =
